@@ -2,6 +2,7 @@ package lhsim
 
 import (
 	"bytes"
+	"fmt"
 
 	"github.com/orbs-network/lean-helix-go/services/interfaces"
 	"github.com/orbs-network/lean-helix-go/spec/types/go/protocol"
@@ -125,7 +126,46 @@ func RunLeaderUnit(w *World) {
 			if cand == r.idx || !w.nodes[cand].byz {
 				continue
 			}
-			raw := VoteMsg(SignedVote(w.signer(cand), w.instance, 1, V, Proof{}), nil)
+			// the vote may carry a prepared proof of an EARLIER view: validating it is one more place where the leader
+			// of a view is computed - of a view below the node's current one
+			pr := Proof{}
+			var prBlk interfaces.Block
+			if V > 0 && w.ch.Pick("vc-with-proof", 2) == 1 {
+				var u uint64
+				switch w.ch.Pick("proof-view", 4) {
+				case 0:
+					u = 0
+				case 1:
+					u = V - 1
+				case 2:
+					if cur := r.view(); cur > 0 {
+						u = uint64(w.ch.Pick("proof-view-below-cur", int(minU(cur, 1<<20))))
+					}
+				default:
+					u = uint64(w.ch.Pick("proof-view-low", int(minU(V, 4*n))))
+				}
+				signer := w.keys.IdxOf(expect(u))
+				if w.ch.Pick("proof-wrong-leader", 3) == 2 {
+					signer = w.keys.IdxOf(comm[w.ch.Pick("proof-signer", int(n))].Id)
+				}
+				if signer >= 0 && w.nodes[signer].byz && u < V {
+					blk := w.freshBlock(1, signer, false)
+					pr.Present = true
+					pr.PP = Ref{Type: protocol.LEAN_HELIX_PREPREPARE, Instance: w.instance, H: 1, V: u, Hash: blk.Hash()}
+					pr.PPSig = Sig{w.keys.ids[signer], w.signer(signer).Msg(1, refBuilder(protocol.LEAN_HELIX_PREPREPARE, w.instance, 1, u, blk.Hash()).Build().Raw())}
+					pr.P = Ref{Type: protocol.LEAN_HELIX_PREPARE, Instance: w.instance, H: 1, V: u, Hash: blk.Hash()}
+					pRaw := refBuilder(protocol.LEAN_HELIX_PREPARE, w.instance, 1, u, blk.Hash()).Build().Raw()
+					for _, m := range comm {
+						pi := w.keys.IdxOf(m.Id)
+						if pi != signer && w.nodes[pi].byz {
+							pr.PSigs = append(pr.PSigs, Sig{m.Id, w.signer(pi).Msg(1, pRaw)})
+						}
+					}
+					prBlk = blk
+					w.probe("vc-trial-with-proof")
+				}
+			}
+			raw := VoteMsg(SignedVote(w.signer(cand), w.instance, 1, V, pr), prBlk)
 			nStores := len(r.obs.stores)
 			w.action("vc-trial")
 			w.deliver(&Flight{from: cand, to: r.idx, raw: raw, tag: "unit"})
@@ -141,9 +181,23 @@ func RunLeaderUnit(w *World) {
 				}
 			}
 			should := bytes.Equal(r.id, expect(V))
+			whyNot := ""
+			if pr.Present {
+				// judged on what the wire decoders make of the message, as for every other reference predicate
+				dec := Decode(raw)
+				if dec == nil || dec.Vote == nil {
+					continue
+				}
+				if ok, why := w.refProof(dec.Vote.Proof, 1, V); !ok {
+					should = false
+					whyNot = " (the vote carries a prepared proof of view " + fmt.Sprint(pr.PP.V) + " signed by " + string(pr.PPSig.Id) + " that does not count: " + why + ")"
+				} else if should {
+					w.probe("vc-trial-valid-proof-to-leader")
+				}
+			}
 			w.probe("leader-judged")
 			if (stored || dup) != should {
-				w.violate("C18", "vc-leader-mismatch", "n=%d view=%d: VIEW_CHANGE delivered to %s (position %d) stored=%v, but the member at (view mod n)=%d is %s", n, V, string(r.id), posOf(comm, r.id), stored || dup, V%n, string(expect(V)))
+				w.violate("C18", "vc-leader-mismatch", "n=%d view=%d: VIEW_CHANGE delivered to %s (position %d) stored=%v, but the member at (view mod n)=%d is %s%s", n, V, string(r.id), posOf(comm, r.id), stored || dup, V%n, string(expect(V)), whyNot)
 			}
 		default: // a timeout: the vote goes to the member at ((view+1) mod n)
 			if r.trig == nil || r.trig.cur == nil || r.trig.cur.fired {
